@@ -69,6 +69,16 @@ fn gen_literal(src: &mut Src) -> String {
                 format!("{}.{}", &text[..text.len() - sc], &text[text.len() - sc..])
             }
         }
+        2 => {
+            // few significant digits, padded with trailing zeros (products whose raw scale exceeds 28
+            // but whose value fits)
+            let int = src.pick(4);
+            let sig = 1 + src.pick(3);
+            let zeros = src.pick(28 - int - sig + 1);
+            let nz = true;
+            let ip = if int == 0 { "0".to_string() } else { digits(src, int, nz) };
+            format!("{}.{}{}", ip, digits(src, sig, false), "0".repeat(zeros))
+        }
         _ => {
             let total = 1 + src.pick(28);
             let frac = src.pick(total + 1).min(28);
@@ -223,8 +233,17 @@ fn check_malformed(text: &str, st: &mut Stats) -> CaseResult {
 }
 
 fn gen_malformed(src: &mut Src) -> String {
-    let base = gen_literal(src);
+    let mut base = gen_literal(src);
     let n1 = 1 + src.pick(3);
+    if src.chance(1, 3) {
+        // a long base: its digits fill the 96-bit mantissa before the junk is reached
+        let int = 20 + src.pick(12);
+        let frac = src.pick(12);
+        base = digits(src, int, true);
+        if frac > 0 {
+            base = format!("{}.{}", base, digits(src, frac, false));
+        }
+    }
     match src.pick(7) {
         0 => format!("{}.{}", if base.contains('.') { base.clone() } else { format!("{}.5", base) }, digits(src, n1, false)),
         1 => format!("{}e{}", base, digits(src, n1, false)),
